@@ -262,7 +262,10 @@ class Facts:
 
 
 def load(repo=None, profile="dev"):
-    return Facts(extract(repo, profile))
+    f = Facts(extract(repo, profile))
+    from . import mirq
+    mirq._FACTS = f           # expression trees may look through crate constructors (Session::start(args).args -> args)
+    return f
 
 
 if __name__ == "__main__":
